@@ -1,5 +1,62 @@
-"""fkG_num integrand-level contract (filled in with the numerical kernels, DESIGN step 4)"""
+"""C03, state-based route: fkG_num (NLgeom=0) uses at every integration point the resultants N = A*eps + B*kappa of the
+(linear) strains of the state, for the uniform 6x6 laminate and for a per-point table alike."""
+from fractions import Fraction
+
+from ..poly import P, normal
+from .. import kharness as K, spec_panel as S
+from ..pysym import integer
+from . import c08
+from .c11_kernel import Fval
 
 
 def body(led):
-    pass
+    for model in ('plate', 'cpanel'):
+        for kind in ('uniform', 'table'):
+            func = 'compmech/panel/models/%s.pyx:fkG_num' % c08.MODS[model]
+            led.function(func)
+            it, res, panel, (size, row0, col0, nx, ny) = c08.run(model, 'fkG_num', 0, kind)
+            for path, out in res:
+                if out[0] == 'raise':
+                    led.fail('%s/no-exception[%s,NLgeom=0]' % (func, kind), func, {'raises': out[1].tname}, signature='raise')
+            _, em = c08.merged_emissions(res)
+            if not em:
+                led.fail('%s/emits[%s,NLgeom=0]' % (func, kind), func, {'reason': 'no emission'}, signature='empty')
+                continue
+            path, groups = em[0]
+            m, n = panel.attrs['m'], panel.attrs['n']
+            a, b, r = panel.attrs['a'], panel.attrs['b'], panel.attrs['r']
+            sx, sy = 2 / a, 2 / b
+            ptx, pty = P.atom('ptx'), P.atom('pty')
+            xi, eta = P.atom('gauss_x<1*nx>[1*ptx]'), P.atom('gauss_x<1*ny>[1*pty]')
+            weight = P.atom('gauss_w<1*nx>[1*ptx]') * P.atom('gauss_w<1*ny>[1*pty]')
+            F = c08.F_of(kind, panel, ptx, pty)
+
+            def st(dof, ox, oy):
+                return c08.state_sum(dof, ox, oy, xi, eta, m, n, col0) * (sx ** ox) * (sy ** oy)
+            eps = [st(0, 1, 0), st(1, 0, 1) + (st(2, 0, 0) / r if model == 'cpanel' else 0), st(0, 0, 1) + st(1, 1, 0),
+                   -st(2, 2, 0), -st(2, 0, 2), -2 * st(2, 1, 1)]
+            N = [sum((F[s_][t_] * eps[t_] for t_ in range(6)), P.const(0)) for s_ in range(3)]
+            seen = {}
+            roles = None
+            for g in groups:
+                lv = [v for v in g['loopvars'] if v not in ('ptx', 'pty')]
+                dr = K.decode_index(g['row'], row0, 3, m, lv)
+                dc = K.decode_index(g['col'], col0, 3, m, lv)
+                if dr is None or dc is None:
+                    led.fail('%s/placement[%s,NLgeom=0]' % (func, kind), func, {'row': str(g['row'])}, signature='placement')
+                    continue
+                roles = (dr[0], dr[1], dc[0], dc[1])
+                seen[(dr[2], dc[2])] = seen.get((dr[2], dc[2]), P.const(0)) + g['val']
+            if roles is None:
+                continue
+            I, J, Kk, L = roles
+
+            def sh(ox, oy, who):
+                return Fval(ox, P.atom(who[0]), S.flagset('w', 'x'), xi) * Fval(oy, P.atom(who[1]), S.flagset('w', 'y'), eta) * (sx ** ox) * (sy ** oy)
+            A_, B_ = (I, J), (Kk, L)
+            spec = weight * a * b * Fraction(1, 4) * (N[0] * sh(1, 0, A_) * sh(1, 0, B_) + N[2] * (sh(1, 0, A_) * sh(0, 1, B_) + sh(0, 1, A_) * sh(1, 0, B_))
+                                                    + N[1] * sh(0, 1, A_) * sh(0, 1, B_))
+            for p in range(3):
+                for q in range(3):
+                    c08.cmp(led, '%s/entry[%d,%d]==N(state)-weighted-slope-Hessian[%s,NLgeom=0]' % (func, p, q, kind), func,
+                            seen.get((p, q), P.const(0)), spec if (p, q) == (2, 2) else P.const(0), sig='kGnum%d%d' % (p, q))
